@@ -67,6 +67,8 @@ class C05(Prop):
     def gen_case(self, rng, kf=False):
         nc = rng.chance(1, 5)
         rs = ruleset.gen_ruleset(rng, global_refs_ordinary=kf, nocase=50 if nc else 0)
+        if rng.chance(1, 4):
+            ruleset.add_compile_noise(rng.fork("noise"), rs)
         mem = rng.choice(ruleset.MIXED_MEMS if nc else ruleset.MEMS)
         return {"rs": rs, "mem": mem.hex(), "full": rng.chance(1, 2), "nm": rng.chance(1, 2), "cb": rng.chance(1, 2),
                 "ev_nomatch": rng.chance(1, 2)}
@@ -87,7 +89,7 @@ class C05(Prop):
 
     def harness_case(self, case):
         ev = 1 | (2 if case["ev_nomatch"] else 0)
-        return {"rules": ruleset.harness_rules(case["rs"]),
+        return {"rules": ruleset.harness_rules(case["rs"]), "csymbols": case["rs"].get("csymbols", []),
                 "params": {"compute_full_matches": case["full"], "include_not_matched": case["nm"], "events": ev},
                 "api": "callback" if case["cb"] else "list", "input": {"mem": case["mem"]}}
 
